@@ -115,6 +115,31 @@ pub fn two_block_net(rng: &mut Rng, r: usize, wkind: u8) -> (NetSpec, Sh, Sh) {
     (spec, input, Sh::Flat(outn))
 }
 
+/// a spatial network whose feedback block contains a max-pool layer with a real window:
+/// [deconv 2x2 (grows by one), max-pool 2x2 stride 1 (shrinks by one)] and variants, followed by a dense layer
+pub fn pool_block_net(rng: &mut Rng, r: usize, wkind: u8, smooth: bool) -> Option<(NetSpec, Sh, Sh)> {
+    let (c, h, w) = (1 + r % 2, rng.range(2, 3), rng.range(2, 4));
+    let input = Sh::Sp(c, h, w);
+    let acts: Vec<Act> = if smooth { vec![Act::Tanh, Act::Sigmoid, Act::Linear] } else { vec![Act::Tanh, Act::Linear, Act::ReLU, Act::Leaky] };
+    let dc = |rng: &mut Rng, f: usize| Simple::Deconv { filters: f, kernel: (2, 2), stride: (1, 1), padding: (0, 0), act: *rng.pick(&acts), dropout: None };
+    let pool = Simple::Maxpool { kernel: (2, 2), stride: (1, 1) };
+    let ls: Vec<Simple> = match r % 4 {
+        0 => vec![dc(rng, c), pool],
+        1 => vec![Simple::Conv { filters: rng.range(1, 2), kernel: (3, 3), stride: (1, 1), padding: (1, 1), dilation: (1, 1), act: *rng.pick(&acts), dropout: None }, dc(rng, c), pool],
+        2 => vec![Simple::Conv { filters: c, kernel: (1, 1), stride: (1, 1), padding: (0, 0), dilation: (1, 1), act: *rng.pick(&acts), dropout: None }, Simple::Maxpool { kernel: (1, 1), stride: (1, 1) }],
+        _ => vec![{ let f_ = rng.range(1, 2); dc(rng, f_) }, pool, Simple::Conv { filters: c, kernel: (1, 3), stride: (1, 1), padding: (0, 1), dilation: (1, 1), act: *rng.pick(&acts), dropout: None }],
+    };
+    let mut spec = NetSpec::new(input.to_shape());
+    let bw = block_weights(rng, &ls, input, wkind)?;
+    spec.layers.push(LayerSpec::Block { layers: ls, loops: 1 + (r / 4) % 3, inskips: (r / 2) % 4 == 1, outskips: (r / 2) % 4 == 3, acc: Acc::Add });
+    let d = Simple::Dense { out: rng.range(1, 3), act: Act::Linear, bias: true, dropout: None };
+    let outsh = out_shape(&d, input)?;
+    let ws = vec![bw, LW::One(rand_w(rng, &d, Sh::Flat(input.numel()), wkind))];
+    spec.layers.push(LayerSpec::One(d));
+    spec.weights = Some(ws);
+    Some((spec, input, outsh))
+}
+
 pub fn gen_c11(rng: &mut Rng, thorough: bool) -> Vec<Tagged> {
     let mut out: Vec<Tagged> = vec![];
     let mut o = GenOpts::default();
@@ -154,6 +179,12 @@ pub fn gen_c11(rng: &mut Rng, thorough: bool) -> Vec<Tagged> {
     for r in 0..(if thorough { 40 } else { 10 }) {
         let (spec, input, _) = two_block_net(rng, r, 1);
         out.push(("two-blocks-fwd".into(), Case::Net(spec, NetCmd::Forward(rand_input(rng, input, 0)))));
+    }
+    // blocks that contain a max-pool layer with a real window
+    for r in 0..(if thorough { 48 } else { 12 }) {
+        if let Some((spec, input, _)) = pool_block_net(rng, r, 1, false) {
+            out.push(("block-with-maxpool-fwd".into(), Case::Net(spec, NetCmd::Forward(rand_input(rng, input, 0)))));
+        }
     }
     out
 }
@@ -203,6 +234,23 @@ pub fn gen_c10(rng: &mut Rng, thorough: bool) -> Vec<Tagged> {
         let data: Vec<(Tensor, Tensor)> = (0..2).map(|_| (rand_input(rng, input, 2), rand_target(rng, outsh, Obj::MSE))).collect();
         out.push(("tied-two-blocks".into(), Case::Net(spec.clone(), NetCmd::Learn { data, val: None, batch: 1 + r % 2, epochs: 2 })));
         out.push(("tied-two-blocks-params".into(), Case::Net(spec, NetCmd::Shapes)));
+    }
+    // blocks with a max-pool layer: the parameter-free couple is skipped, the others stay tied
+    for r in 0..(if thorough { 36 } else { 12 }) {
+        if let Some((mut spec, input, outsh)) = pool_block_net(rng, r, 2, false) {
+            for l in spec.layers.iter_mut() {
+                if let LayerSpec::Block { inskips, outskips, acc, .. } = l {
+                    *inskips = false;
+                    *outskips = false;
+                    *acc = [Acc::Add, Acc::Mean, Acc::Mean][r % 3];
+                }
+            }
+            spec.opt = rand_opt(rng, r % 5);
+            spec.obj = Obj::MSE;
+            let data: Vec<(Tensor, Tensor)> = (0..2).map(|_| (rand_input(rng, input, 2), rand_target(rng, outsh, Obj::MSE))).collect();
+            out.push(("tied-block-with-maxpool".into(), Case::Net(spec.clone(), NetCmd::Learn { data, val: None, batch: 1 + r % 2, epochs: 2 })));
+            out.push(("tied-block-with-maxpool-params".into(), Case::Net(spec, NetCmd::Shapes)));
+        }
     }
     out
 }
